@@ -178,7 +178,7 @@ func c05(c *ctx) {
 	// CheckTx passes the address returned by CheckSignature
 	for _, cs := range callsIn(checkTx, false, populate) {
 		p := c.p.path(argOf(cs, 1))
-		r.Check(strings.Contains(p, ".CheckSignature(") && strings.HasSuffix(p, "#0"), "R2/CheckTx/populate-signer", c.p.Pos(cs.Pos()), "signer argument = "+p, "PopulateSpecialMessageFields receives "+p+" as signer, not the address returned by CheckSignature")
+		r.Check(has(p, ".CheckSignature(") && hasSuffix(p, "#0"), "R2/CheckTx/populate-signer", c.p.Pos(cs.Pos()), "signer argument = "+p, "PopulateSpecialMessageFields receives "+p+" as signer, not the address returned by CheckSignature")
 	}
 	getValidator := c.fn("fsm.(*StateMachine).GetValidator")
 	nDebits := 0
@@ -260,14 +260,16 @@ func c05(c *ctx) {
 	// the signers given to CheckSignature are the ones GetAuthorizedSignersFor returned (or the plugin's), for the very tx that was decoded
 	for _, cs := range callsIn(checkTx, false, checkSig) {
 		p1 := c.p.path(argOf(cs, 1))
-		okp := strings.Contains(p1, ".GetAuthorizedSignersFor(") && strings.Contains(p1, "AuthorizedSigners")
+		okp := strings.Contains(p1, ".GetAuthorizedSignersFor(") && allAlts(p1, func(a string) bool {
+			return strings.Contains(a, ".GetAuthorizedSignersFor(") || strings.HasSuffix(a, ".AuthorizedSigners")
+		})
 		r.Check(okp, "R3/CheckTx/signers-arg", c.p.Pos(cs.Pos()), "authorizedSigners = "+p1, "CheckSignature receives signers "+p1+", expected the result of GetAuthorizedSignersFor (or the plugin's AuthorizedSigners)")
 		p2 := c.p.path(argOf(cs, 2))
 		r.Check(p2 == "$3", "R3/CheckTx/batch-arg", c.p.Pos(cs.Pos()), "batch verifier passed through", "CheckSignature receives batch verifier "+p2+" instead of CheckTx's own parameter")
 	}
 	for _, cs := range callsIn(checkTx, false, getAuth) {
 		p := c.p.path(argOf(cs, 0))
-		r.Check(strings.Contains(p, ".CheckMessage(") && strings.HasSuffix(p, "#0"), "R3/CheckTx/auth-msg", c.p.Pos(cs.Pos()), "authorisation computed for the checked message", "GetAuthorizedSignersFor is asked about "+p+", not the message CheckMessage returned")
+		r.Check(has(p, ".CheckMessage(") && hasSuffix(p, "#0"), "R3/CheckTx/auth-msg", c.p.Pos(cs.Pos()), "authorisation computed for the checked message", "GetAuthorizedSignersFor is asked about "+p+", not the message CheckMessage returned")
 	}
 	// CheckSignature
 	batchAdd := c.fn("lib/crypto.(*BatchVerifier).Add")
@@ -465,7 +467,7 @@ func c05(c *ctx) {
 			reqs: func(string) []string { return []string{"bytes.Equal#0=T"} }, minTarget: 1})
 		for _, cs := range callsIn(verifyRLP, false, bytesEqual) {
 			a, b := c.p.path(cs.Common().Args[0]), c.p.path(cs.Common().Args[1])
-			ok := (strings.HasSuffix(a, ".GetHash()#0") && b == "$1.GetHash()#0" && strings.Contains(a, "RLPToCanopyTransaction")) || (strings.HasSuffix(b, ".GetHash()#0") && a == "$1.GetHash()#0" && strings.Contains(b, "RLPToCanopyTransaction"))
+			ok := (hasSuffix(a, ".GetHash()#0") && b == "$1.GetHash()#0" && has(a, "RLPToCanopyTransaction")) || (hasSuffix(b, ".GetHash()#0") && a == "$1.GetHash()#0" && has(b, "RLPToCanopyTransaction"))
 			r.Check(ok, "R6/VerifyRLPBytes/operands", c.p.Pos(cs.Pos()), "compares hash of the RLP-derived transaction with tx.GetHash()", "VerifyRLPBytes compares "+a+" with "+b+", expected the hash of the transaction re-derived from the signed RLP against tx.GetHash()")
 		}
 	}
